@@ -100,6 +100,9 @@ func execC17Interleave(t *testing.T, p Plan, src kernel.Source) Result {
 	res := inBubble(t, p.Seed, src, func(w *kernel.World, res *Result) {
 		w.LogEvents = p.X["log"] != 0
 		w.Run.ManagePkgs = []string{"/handlers/inmem"}
+		// a release is a scheduling point too: a command that drops and re-takes the lock
+		// can then be overtaken in between
+		w.Run.YieldAfterUnlock = true
 		h, _ := inmem.New()
 		pre := inmemPrefix(p.Seed)
 		type task struct {
